@@ -66,12 +66,15 @@ class SBool(SVal):
 class SInt(SVal):
     """Symbolic int. `lz`: value is a multiple of 2**lz.  `nb`: if not None, 0 <= value < 2**nb (proved syntactically)."""
 
-    __slots__ = ("e", "lz", "nb")
+    __slots__ = ("e", "lz", "nb", "be")
 
-    def __init__(self, e, lz=0, nb=None):
+    def __init__(self, e, lz=0, nb=None, be=None):
         self.e = e
         self.lz = lz
         self.nb = nb
+        # optional big-endian octet decomposition: value == sum(be[i] * 256**(len-1-i)), each 0..255
+        # (kept so that pack(unpack(x)) and shifts/masks by whole octets need no div/mod reasoning)
+        self.be = be
 
     def __repr__(self):
         return f"SInt({self.e})"
@@ -363,7 +366,11 @@ class PathState:
                 self.solver.push()
                 self.solver.add(extra)
                 r = self.solver.check()
+                if r == z3.sat:
+                    self.last_model = self.solver.model()
                 self.solver.pop()
+            if r == z3.sat and extra is None:
+                self.last_model = self.solver.model()
         finally:
             if timeout_ms is not None:
                 self.solver.set("timeout", self.ex.branch_timeout_ms)
@@ -380,6 +387,28 @@ class PathState:
         if z3.is_false(cond):
             return False
         return self.check(z3.Not(cond)) == z3.unsat
+
+    def const_value(self, e):
+        """python int c if the path condition entails e == c, else None."""
+        if isinstance(e, int):
+            return e
+        e = z3.simplify(e)
+        if z3.is_int_value(e):
+            return e.as_long()
+        key = e.get_id()
+        cache = self.__dict__.setdefault("_cv", {})
+        if key in cache:
+            return cache[key]
+        if self.check() != z3.sat:
+            return None
+        c = self.last_model.eval(e, model_completion=True)
+        if not z3.is_int_value(c):
+            return None
+        c = c.as_long()
+        if self.check(e != c) == z3.unsat:
+            cache[key] = c
+            return c
+        return None
 
     def decide(self, cond):
         """Branch on z3 Bool cond: returns python bool, forks the exploration."""
@@ -460,6 +489,7 @@ class Explorer:
                 out = body(p)
             except PathAbort:
                 self.stats["aborted"] += 1
+                results.append((p, None))
                 continue
             results.append((p, out))
         return results
